@@ -3,6 +3,8 @@ import Verif.Model.Fixer
 import Verif.Spec.Fixer
 import Verif.Model.Mixin
 import Verif.Spec.Mixin
+import Verif.Model.Index
+import Verif.Spec.Index
 import Verif.Generated.Facts
 
 open Lean
@@ -22,6 +24,8 @@ def dispatch (op : String) (inp : J) (impl : Option J) : J :=
             ("implPost", match implDoc with | some d => .bool (Spec.Fixer.postcondition d) | none => .null),
             ("implFrame", match implDoc with | some d => .bool (Spec.Fixer.sameFrame d inp) | none => .null),
             ("implExpected", match implDoc with | some d => .bool (d == Spec.Fixer.expected inp) | none => .null)])]
+  | "analyze" =>
+    .obj [("model", Index.toJson (Analyzer.analyze facts inp)), ("spec", Spec.Index.expected inp)]
   | "mixin" =>
     let primary := (inp.get? "primary").getD .null
     let mixins := inp.getArr "mixins"
